@@ -387,6 +387,9 @@ def delta_units(tier):
     if th:
         sizes += [(2, 2, 1, full), (1, 1, 2, full), (3, 2, 0, full), (2, 3, 0, full), (3, 3, 0, ('x', 'y'))]
     for mode in MODES:
+        if mode != 'reestablish':
+            us.append(Unit('delta/watchdog-toggled-after/%s' % mode, lambda ctx, mode=mode: h_watchdog_after_reload(ctx, mode),
+                           must_cover=('old-route-in-the-group', 'a-route-left-the-configuration'), hash_const=True, reset=reset, weight=30))
         # the new configuration may carry routes configured `watchdog w1 withdraw` (initially withdrawn)
         us.append(Unit('delta/watchdog/%s' % mode, lambda ctx, mode=mode: h_delta(ctx, 1, 2, 0, mode, pool_names=('x', 'y'), wd=True),
                        must_cover=('watchdog-withdrawn-route-in-new-configuration',), hash_const=True, reset=reset, weight=30))
@@ -407,6 +410,71 @@ def delta_units(tier):
                            must_cover=must, hash_const=True, reset=reset, max_paths=400000, max_seconds=1100,
                            weight=(3 ** (no + nn)) * (5 ** na)))
     return us
+
+
+def h_watchdog_after_reload(ctx, mode):
+    """Watchdog groups across a reload.  The old configuration has two routes, each optionally a member of the group w1
+    (`watchdog w1`); the new configuration keeps, drops or changes them (solver-chosen prefixes and memberships).  After the
+    reload the API toggles the group: `withdraw watchdog w1`, then `announce watchdog w1`.  The peer ends up holding exactly
+    the routes of the NEW configuration: a route which left the configuration does not come back through the group."""
+    pool = Pool(('x', 'y'))
+    old_n, new_n = neighbor_pair()
+    rib = mk_rib(True)
+    for nb in (old_n, new_n):
+        nb.rib.outgoing = rib
+        nb.rib.enabled = True
+        nb.routes = []
+        nb.previous = None
+    table = PeerTable()
+    tx = Sender(rib, table, False)
+    dom = 3
+    old = []
+    for i in range(2):
+        member = bool(ctx.bool('old%d.in-w1' % i))
+        old.append(mk_route(ctx, 'old%d.p' % i, dom, pool, 0, watchdog='w1' if member else None))
+        if member:
+            ctx.cover('old-route-in-the-group')
+    ctx.assume(s_not(sx_eq(old[0].nlri.index(), old[1].nlri.index())), 'the configuration lists every prefix once')
+    old_n.routes = list(old)
+    parse_step(old_n)
+    peer = mk_peer(old_n, True)
+    main_session_start(peer)
+    tx.send(None)
+    if mode == 'down':
+        session_lost(peer, tx, table)
+    n_new = ctx.choice('new-routes', 2) + 1
+    new = []
+    for i in range(n_new):
+        member = bool(ctx.bool('new%d.in-w1' % i))
+        new.append(mk_route(ctx, 'new%d.p' % i, dom, pool, ctx.choice('new%d.attr' % i, 2), watchdog='w1' if member else None))
+        for other in new[:-1]:
+            ctx.assume(s_not(sx_eq(other.nlri.index(), new[-1].nlri.index())), 'the configuration lists every prefix once')
+    new_n.routes = list(new)
+    new_n.previous = old_n
+    parse_step(new_n)
+    if mode == 'down':
+        peer.reconfigure(new_n)
+        peer.fsm.state = FSM.ESTABLISHED
+        main_session_start(peer)
+    else:
+        peer.reconfigure(new_n)
+        main_loop_top(peer)
+    tx.send(None)
+    if any(not any(same(o.nlri.index(), r.nlri.index()) for r in new) for o in old):
+        ctx.cover('a-route-left-the-configuration')
+    rib.withdraw_watchdog('w1')
+    tx.send(None)
+    rib.announce_watchdog('w1')
+    tx.send(None)
+    ghost = Table()
+    for r in new:
+        ghost.set_route(r)
+    d = diff(table, ghost)
+    info = {'mode': mode, 'old': [K.row_of_route(r) for r in old], 'new': [K.row_of_route(r) for r in new], 'peer': table.render(), 'expected': ghost.render()}
+    ctx.check('removed-routes-stay-removed', not [x for x in d if x[0] == 'extra'], sig='C17:watchdog:removed-route-announced-again-through-the-group', info=info)
+    ctx.check('new-routes-announced', not [x for x in d if x[0] == 'missing'], sig='C17:watchdog:route-of-the-new-configuration-missing', info=info)
+    ctx.check('changed-routes-reannounced', not [x for x in d if x[0] == 'differs'], sig='C17:watchdog:route-with-old-values-at-peer', info=info)
+    return [mode, len(table)]
 
 
 def units(tier):
